@@ -118,6 +118,8 @@ def run(ctx):
     # ---------------------------------------------------------------- paper wallet: coin type, account key versions, rows, wasabi
     from .C06 import check_generate
     check_generate(ctx, 'C16.PAPER', network_only=True)
+    from .C06 import check_node_versions
+    check_node_versions(ctx, 'C16.NODEVERSION')
     # a wallet built from an extended key takes its network (wallet flag AND node flag) from the version prefix
     from .C07 import check_dispatch
     check_dispatch(ctx, 'C16.IMPORT')
